@@ -96,6 +96,10 @@ pub fn run(ctx: &Ctx) -> i32 {
                 for &al in &als {
                     for &n in ns {
                         evals += 1;
+                        // non-trivial: the symbols-per-block limit (incl. the 2^32 wrap) is what decides
+                        if f <= rfcref::MAX_TRANSFER_LENGTH && t % (al as u16) == 0 {
+                            *local.entry("decided_by_block_limit").or_insert(0) += 1;
+                        }
                         match check(f, t, z, n, al) {
                             Ok(k) => *local.entry(k).or_insert(0) += 1,
                             Err(m) => {
@@ -116,7 +120,7 @@ pub fn run(ctx: &Ctx) -> i32 {
         st.merge_counters(&local);
     });
     // distinct non-trivial: points where the 56403-symbols-per-block limit or the 2^32 narrowing is what decides
-    st.nontriv(st.counter("accept").min(st.counter("refuse")) );
+    st.nontriv(st.counter("decided_by_block_limit"));
     st.outcome("accept");
     st.outcome("refuse");
     for (f, t, z, n, al) in [(1u64 << 32 | 5, 1u16, 1u8, 1u16, 1u8), (56403 * 255, 1, 255, 1, 1), (56403 * 255 + 1, 1, 255, 1, 1), (942574504275, 65535, 255, 1, 1), (10, 6, 1, 1, 4)] {
@@ -124,7 +128,7 @@ pub fn run(ctx: &Ctx) -> i32 {
     }
     finish(ctx, &st, Finish {
         level: "exploration",
-        rule: format!("grid: T in {} x Z in 1..=255 x F in B_F(T,Z) (1, T, T+1, 56403*Z*T+{{-1,0,1}}, 942574504275+{{-1,0,1}}, 2^40-1, and every F with ceil(F/T) = 2^32*m + r, r in {{0,1,5,56403Z,56403Z+1}}, and F-1) x Al in {{1, T, smallest non-divisor of T, (a proper divisor, 255)}} x N in {{1,(65535)}}; oracle = u128 predicate F<=942574504275 && Al|T && ceil(ceil(F/T)/Z)<=56403; accessors must echo. distinct_nontrivial = min(#accepted, #refused) points (both outcomes are exercised that many times).", if ctx.quick() { "1..=300 and 15 boundary values".to_string() } else { "1..=65535 (all)".to_string() }),
+        rule: format!("grid: T in {} x Z in 1..=255 x F in B_F(T,Z) (1, T, T+1, 56403*Z*T+{{-1,0,1}}, 942574504275+{{-1,0,1}}, 2^40-1, and every F with ceil(F/T) = 2^32*m + r, r in {{0,1,5,56403Z,56403Z+1}}, and F-1) x Al in {{1, T, smallest non-divisor of T, (a proper divisor, 255)}} x N in {{1,(65535)}}; oracle = u128 predicate F<=942574504275 && Al|T && ceil(ceil(F/T)/Z)<=56403; accessors must echo. distinct_nontrivial = points (all distinct) where F <= 942574504275 and Al | T, so that the symbols-per-block limit incl. the 2^32 wrap-around decides.", if ctx.quick() { "1..=300 and 15 boundary values".to_string() } else { "1..=65535 (all)".to_string() }),
         exhaustive: false,
         assumptions: vec!["limits as documented in ObjectTransmissionInformation::new (RFC 6330 errata 5548: F <= 942574504275; 4.4.1.2: ceil(ceil(F/T)/Z) <= 56403)".into(), "F off the boundary set is not enumerated: the predicate is monotone in F between the listed breakpoints (for the reference; for the implementation that is exactly what the 2^32 wrap points probe)".into()],
         extra: Map::new(),
